@@ -295,6 +295,17 @@ PINS = [
     ("pinFormatForContents", "Errors", "src/errors.rs", "pub fn format_for_contents<W: Write>"),
     ("pinFormatTokenList", "Errors", "src/errors.rs", "fn format_token_list(tokens"),
     ("pinListWithAnd", "Errors", "src/errors.rs", "fn list_with_and<"),
+    ("pinAsWidth", "Value", "src/ast.rs", "pub fn as_width(self, new_width: WireWidth)"),
+    ("pinValueOp", "Value", "src/ast.rs", "pub fn op<F>(self, other: WireValue"),
+    ("pinGrammarFile", "Grammar", "src/parser.lalrpop", "FILE"),
+    ("pinRunY86", "Main", "src/main.rs", "fn run_y86<W: Write>("),
+    ("pinNewFromData", "Io", "src/io.rs", "pub fn new_from_data("),
+    ("pinNewFromFile", "Io", "src/io.rs", "pub fn new_from_file_with_preamble("),
+    ("pinLexerNext", "Lexer", "src/lexer.rs", "fn next(&mut self)"),
+    ("pinLexerChooseToken", "Lexer", "src/lexer.rs", "fn choose_token(&mut self"),
+    ("pinLexerGetWhile", "Lexer", "src/lexer.rs", "fn get_while<F>(&mut self"),
+    ("pinLexerInternalNext", "Lexer", "src/lexer.rs", "fn internal_next(&mut self)"),
+    ("pinLexerResolveIdentifier", "Lexer", "src/lexer.rs", "fn resolve_identifier(&self"),
 ]
 
 
@@ -302,8 +313,10 @@ def extract_pins(out):
     cache = {}
     for name, _group, path, header in PINS:
         if path not in cache:
-            cache[path] = strip_comments(read(path))
-        body = fn_body(cache[path], header)
+            # lexer.rs has "/*" inside literals: only its line comments are removed (as extract_lexer does)
+            cache[path] = re.sub(r"//[^\n]*", "", read(path)) if path == "src/lexer.rs" else strip_comments(read(path))
+        # "FILE": the whole file (the grammar: the parser model transcribes all of it; only `//` comments are removed)
+        body = re.sub(r"//[^\n]*", "", read(path)) if header == "FILE" else fn_body(cache[path], header)
         out.append("def %s : String := %s" % (name, lstr(norm(body) if body is not None else "UNRECOGNISED")))
 
 
